@@ -114,3 +114,28 @@ func rangeInt(n int) int {
 	}
 	return s
 }
+
+func lines(s string, off int) (int, int) {
+	line, col := 1, 1
+	for i := 0; i < off; i++ {
+		if s[i] == '\n' {
+			line++
+			col = 1
+		} else {
+			col++
+		}
+	}
+	return line, col
+}
+
+func greet(name string) []byte { return append([]byte("hi "), name...) }
+
+func anyTrue(bs []bool) int {
+	n := 0
+	for _, b := range bs {
+		if b {
+			n++
+		}
+	}
+	return n + len(bs)
+}
